@@ -19,7 +19,7 @@ import vlib, runner
 PID = "C19"
 HOWS_ANY = ["new", "new_raw", "new_root", "alloc", "alloc_raw", "alloc_root", "stack"]
 TYPES = ["Int", "Float", "String", "Tuple", "Array", "Probe"]
-ELEM_HOWS = ["aelem", "lelem", "tkey", "tval", "rkey", "rval", "it_array", "it_list", "it_table", "it_tree",
+ELEM_HOWS = ["aelem", "f_aelem", "lelem", "tkey", "tval", "rkey", "rval", "it_array", "it_list", "it_table", "it_tree",
              "c_tkey", "c_tval", "c_rkey", "c_rval", "a_tkey", "a_tval", "a_rkey", "a_rval"]      # copies / assignees, key and value sizes far apart
 OTHER = [("copy", "Int"), ("copy", "String"), ("copy", "Float"), ("static", "Int"), ("static", "String"), ("uitem", "Int"),
          ("it_range", "Int"), ("it_slice", "Int"), ("it_zip", "Int"), ("it_map", "Int"), ("rtinst", "Int")]
